@@ -82,13 +82,23 @@ def run(ctx, chk):
                     chk.ok("C08.R2", label, "one push")
             if nt == "procedure":
                 names = [s["name"] for s in p["symbols"]]
-                okp = False
+                # EVERY path of the closing-brace action that does not end in a diagnostic appends exactly `ret`: a label
+                # placed directly before `}` is the target of jumps out of loops, so the brace must always be a return
+                okp, bad = False, None
                 for q in E.prod_paths(nt, k):
+                    if getattr(q, "action", None) != ua["idx"] or any(e.kind == "error" for e in q.effects):
+                        continue
                     pushes = [e for e in q.effects if e.kind == "push" and e.target == "out.code"]
                     if len(pushes) == 1 and isinstance(pushes[0].value, Str) and {tmpl_str(t) for t in pushes[0].value.t} == {"ret"}:
                         okp = True
-                if okp and "proc_contents" in names and names.index("proc_contents") > names.index("proc_def"):
-                    chk.ok("C08.R3", label, "pushes `ret` after proc_contents")
+                    else:
+                        bad = (len(pushes), "; ".join(f"{c[0]}={c[1]}" for c in q.conds)[:200])
+                if okp and bad is None and "proc_contents" in names and names.index("proc_contents") > names.index("proc_def"):
+                    chk.ok("C08.R3", label, "every path pushes `ret` after proc_contents")
+                elif okp and bad is not None:
+                    chk.violation("C08.R3", label, "implied-ret-conditional",
+                                  f"{label}: on a path ({bad[1] or 'unconditional'}) the closing brace appends {bad[0]} instructions instead of exactly `ret`: "
+                                  "a jump to a label placed directly before `}` falls through into whatever follows the procedure", where)
                 else:
                     chk.violation("C08.R3", label, "no-implied-ret", f"{label}: the closing brace does not append exactly `ret` after the body", where)
 
